@@ -1,5 +1,6 @@
-//! C05, TCP stream: drives the REAL `TcpTransport` (through the `VerifTcpTransport` facade) over
-//! loopback sockets and records, per step, the results of the `Transport` trait calls, the
+//! C05, transport streams: drives the REAL `TcpTransport` (tag 9000), `WebSocketTransport` (9001)
+//! and, when the harness is built with `--features quic`, `QuicTransport` (9002) through their
+//! `Verif*Transport` facades over loopback sockets and records, per step, the results of the `Transport` trait calls, the
 //! `TransportEvent`s polled (kind + connection id), the warn/debug lines of the branches of
 //! `poll_next` that consume a future without an event, and a dump of the bookkeeping maps.
 //! Format: coq/Tcp/Glue.v.
@@ -21,6 +22,7 @@ use litep2p::{
         config::Config,
         verif_transport::{VerifResolver, VerifTcpEvent, VerifTcpState, VerifTcpTransport},
     },
+    transport::websocket::{config::Config as WsConfig, verif_transport::VerifWsTransport},
     PeerId,
 };
 use multiaddr::{Multiaddr, Protocol};
@@ -40,18 +42,155 @@ use tokio::{
 
 pub const STREAM_TAG: u64 = 9000;
 
+#[cfg(feature = "quic")]
+use litep2p::transport::quic::{config::Config as QuicConfig, verif_transport::VerifQuicTransport};
+
+/// The transport a case is about; the stream tag of the case is 9000 + its number.
+#[derive(Clone, Copy, PartialEq, Eq, Debug)]
+pub enum Tk {
+    Tcp,
+    Ws,
+    Quic,
+}
+impl Tk {
+    pub fn tag(self) -> u64 {
+        STREAM_TAG + self as u64
+    }
+    pub fn of_tag(t: u64) -> Option<Tk> {
+        match t {
+            9000 => Some(Tk::Tcp),
+            9001 => Some(Tk::Ws),
+            9002 => Some(Tk::Quic),
+            _ => None,
+        }
+    }
+    /// WebSocket and QUIC refuse an address without /p2p
+    fn strict(self) -> bool {
+        self != Tk::Tcp
+    }
+}
+
+/// The transport under test / a remote node.
+enum AnyT {
+    Tcp(VerifTcpTransport),
+    Ws(VerifWsTransport),
+    #[cfg(feature = "quic")]
+    Quic(VerifQuicTransport),
+}
+macro_rules! any {
+    ($s:expr, $t:ident => $e:expr) => {
+        match $s {
+            AnyT::Tcp($t) => $e,
+            AnyT::Ws($t) => $e,
+            #[cfg(feature = "quic")]
+            AnyT::Quic($t) => $e,
+        }
+    };
+}
+impl AnyT {
+    fn new(kind: Tk, cfg: u64, resolver: &VerifResolver) -> (AnyT, SocketAddr) {
+        let timeout = if cfg >= 4 { Duration::from_millis(SHORT_TIMEOUT_MS) } else { Duration::from_secs(60) };
+        match kind {
+            Tk::Tcp => {
+                let (t, a) = VerifTcpTransport::new(
+                    Keypair::generate(),
+                    Config {
+                        listen_addresses: vec!["/ip4/127.0.0.1/tcp/0".parse().unwrap()],
+                        reuse_port: false,
+                        connection_open_timeout: timeout,
+                        substream_open_timeout: Duration::from_secs(60),
+                        max_parallel_dials: parallel(cfg),
+                        ..Default::default()
+                    },
+                    resolver,
+                )
+                .unwrap();
+                (AnyT::Tcp(t), socket_of(&a[0]))
+            }
+            Tk::Ws => {
+                let (t, a) = VerifWsTransport::new(
+                    Keypair::generate(),
+                    WsConfig {
+                        listen_addresses: vec!["/ip4/127.0.0.1/tcp/0/ws".parse().unwrap()],
+                        reuse_port: false,
+                        connection_open_timeout: timeout,
+                        substream_open_timeout: Duration::from_secs(60),
+                        max_parallel_dials: parallel(cfg),
+                        ..Default::default()
+                    },
+                    resolver,
+                )
+                .unwrap();
+                (AnyT::Ws(t), socket_of(&a[0]))
+            }
+            #[cfg(feature = "quic")]
+            Tk::Quic => {
+                let (t, a) = VerifQuicTransport::new(
+                    Keypair::generate(),
+                    QuicConfig {
+                        listen_addresses: vec!["/ip4/127.0.0.1/udp/0/quic-v1".parse().unwrap()],
+                        connection_open_timeout: timeout,
+                        substream_open_timeout: Duration::from_secs(60),
+                    },
+                    resolver,
+                )
+                .unwrap();
+                (AnyT::Quic(t), socket_of(&a[0]))
+            }
+            #[cfg(not(feature = "quic"))]
+            Tk::Quic => panic!("the harness was built without the quic feature"),
+        }
+    }
+    fn local_peer_id(&self) -> PeerId {
+        any!(self, t => t.local_peer_id())
+    }
+    fn draw_connection_id(&self) -> usize {
+        any!(self, t => t.draw_connection_id())
+    }
+    fn dial(&mut self, c: usize, a: Multiaddr) -> bool {
+        any!(self, t => t.dial(c, a))
+    }
+    fn open(&mut self, c: usize, a: Vec<Multiaddr>) -> bool {
+        any!(self, t => t.open(c, a))
+    }
+    fn negotiate(&mut self, c: usize) -> bool {
+        any!(self, t => t.negotiate(c))
+    }
+    fn cancel(&mut self, c: usize) {
+        any!(self, t => t.cancel(c))
+    }
+    fn accept(&mut self, c: usize) -> Option<futures::future::BoxFuture<'static, litep2p::Result<()>>> {
+        any!(self, t => t.accept(c))
+    }
+    fn reject(&mut self, c: usize) -> bool {
+        any!(self, t => t.reject(c))
+    }
+    fn accept_pending(&mut self, c: usize) -> bool {
+        any!(self, t => t.accept_pending(c))
+    }
+    fn reject_pending(&mut self, c: usize) -> bool {
+        any!(self, t => t.reject_pending(c))
+    }
+    fn poll_event(&mut self, cx: &mut std::task::Context<'_>) -> Poll<Option<VerifTcpEvent>> {
+        any!(self, t => t.poll_event(cx))
+    }
+    fn state(&self) -> VerifTcpState {
+        any!(self, t => t.state())
+    }
+}
+
 /// connection_open_timeout of the cases that let timeouts fire
 const SHORT_TIMEOUT_MS: u64 = 250;
 
 /// answers that did not show up in this run
 static MISSED: std::sync::atomic::AtomicUsize = std::sync::atomic::AtomicUsize::new(0);
 
-/// one case in `share` belongs to this stream
+/// two cases in `share` belong to the transport streams (one TCP, one WebSocket)
 pub fn share(thorough: bool) -> u64 {
     if thorough {
-        400
+        1000
     } else {
-        10
+        20
     }
 }
 
@@ -90,7 +229,8 @@ impl tracing::field::Visit for TapVisitor {
 }
 impl tracing::Subscriber for LogTap {
     fn enabled(&self, m: &tracing::Metadata<'_>) -> bool {
-        (m.target() == "litep2p::tcp" && *m.level() <= tracing::Level::DEBUG) || std::env::var("VERIF_TCP_LOG").is_ok()
+        (matches!(m.target(), "litep2p::tcp" | "litep2p::websocket" | "litep2p::quic") && *m.level() <= tracing::Level::DEBUG)
+            || std::env::var("VERIF_TCP_LOG").is_ok()
     }
     fn new_span(&self, _: &tracing::span::Attributes<'_>) -> tracing::span::Id {
         tracing::span::Id::from_u64(1)
@@ -103,7 +243,7 @@ impl tracing::Subscriber for LogTap {
         if std::env::var("VERIF_TCP_LOG").is_ok() {
             eprintln!("LOG {} {} conn={} tap={}", event.metadata().target(), v.message, v.conn, TAP_ON.with(|t| *t.borrow()));
         }
-        if !TAP_ON.with(|t| *t.borrow()) {
+        if !TAP_ON.with(|t| *t.borrow()) || !matches!(event.metadata().target(), "litep2p::tcp" | "litep2p::websocket" | "litep2p::quic") {
             return;
         }
         if v.message.contains("raw connection without a cancel handle") {
@@ -145,7 +285,10 @@ fn closed_port() -> u16 {
     1
 }
 
-fn spawn_gate(target: SocketAddr, tasks: &mut Vec<JoinHandle<()>>) -> Gate {
+fn spawn_gate(kind: Tk, target: SocketAddr, first_through: bool, tasks: &mut Vec<JoinHandle<()>>) -> Gate {
+    if kind == Tk::Quic {
+        return spawn_udp_gate(target, first_through, tasks);
+    }
     let l = std::net::TcpListener::bind(loopback(0)).unwrap();
     l.set_nonblocking(true).unwrap();
     let port = l.local_addr().unwrap().port();
@@ -166,8 +309,83 @@ fn spawn_gate(target: SocketAddr, tasks: &mut Vec<JoinHandle<()>>) -> Gate {
     Gate { port, release: Some(tx) }
 }
 
+/// The gate of the QUIC stream: a UDP relay between the first client that sends to it and `target`.
+/// Until it is released it keeps the datagrams (with `first_through` the client's first datagram is
+/// forwarded at once, so that the listener behind it announces the connection); pass = deliver what
+/// was kept and relay both ways, fail = drop everything (the attempt then ends by its idle timeout).
+fn spawn_udp_gate(target: SocketAddr, first_through: bool, tasks: &mut Vec<JoinHandle<()>>) -> Gate {
+    let down = std::net::UdpSocket::bind(loopback(0)).unwrap();
+    down.set_nonblocking(true).unwrap();
+    let port = down.local_addr().unwrap().port();
+    let up = std::net::UdpSocket::bind(loopback(0)).unwrap();
+    up.set_nonblocking(true).unwrap();
+    let (tx, mut rx) = oneshot::channel::<bool>();
+    tasks.push(tokio::spawn(async move {
+        let down = tokio::net::UdpSocket::from_std(down).unwrap();
+        let up = tokio::net::UdpSocket::from_std(up).unwrap();
+        let mut client: Option<SocketAddr> = None;
+        let mut kept_up: Vec<Vec<u8>> = Vec::new(); // client -> target
+        let mut kept_down: Vec<Vec<u8>> = Vec::new(); // target -> client
+        let mut open = false;
+        let mut dead = false;
+        let mut first = first_through;
+        let mut b1 = vec![0u8; 65536];
+        let mut b2 = vec![0u8; 65536];
+        loop {
+            tokio::select! {
+                r = &mut rx, if !open && !dead => match r {
+                    Ok(true) => {
+                        open = true;
+                        for d in kept_up.drain(..) {
+                            let _ = up.send_to(&d, target).await;
+                        }
+                        if let Some(c) = client {
+                            for d in kept_down.drain(..) {
+                                let _ = down.send_to(&d, c).await;
+                            }
+                        }
+                    }
+                    _ => dead = true,
+                },
+                r = down.recv_from(&mut b1) => {
+                    let Ok((n, from)) = r else { break };
+                    if client.is_none() {
+                        client = Some(from);
+                    }
+                    if dead || client != Some(from) {
+                        continue;
+                    }
+                    if open || first {
+                        first = false;
+                        let _ = up.send_to(&b1[..n], target).await;
+                    } else if kept_up.len() < 64 {
+                        kept_up.push(b1[..n].to_vec());
+                    }
+                }
+                r = up.recv_from(&mut b2) => {
+                    let Ok((n, _)) = r else { break };
+                    if dead {
+                        continue;
+                    }
+                    match (open, client) {
+                        (true, Some(c)) => {
+                            let _ = down.send_to(&b2[..n], c).await;
+                        }
+                        _ => if kept_down.len() < 64 {
+                            kept_down.push(b2[..n].to_vec());
+                        },
+                    }
+                }
+            }
+        }
+    }));
+    Gate { port, release: Some(tx) }
+}
+
 // ---------- events of a case ----------
-/// An address: (kind, named). kind: 0 gate to node A, 1 closed port, 2 malformed, 3 gate to node B.
+/// An address: (kind, named). kind: 0 gate to node A, 1 closed port, 2 malformed (a transport-level
+/// protocol no socket transport has), 3 gate to node B, 4 a well-formed address of another transport
+/// (ws-shaped for TCP, tcp-shaped for WebSocket and QUIC), 5 gate to node A, /wss (WebSocket only).
 /// named: 0 no /p2p component, 1 node A, 2 node B, 3 an identity nobody has.
 type Addr = (u64, u64);
 
@@ -269,12 +487,14 @@ struct Attempt {
     gate: Option<usize>,
     node: u64,
     named: u64,
+    /// a /wss address: the TLS handshake with the plain listener behind the gate cannot succeed
+    tls: bool,
     over: bool,
 }
 impl Attempt {
     /// the handshake through this gate authenticates the node the address names
     fn good(&self) -> bool {
-        self.gate.is_some() && (self.named == 0 || self.named == self.node + 1)
+        self.gate.is_some() && !self.tls && (self.named == 0 || self.named == self.node + 1)
     }
 }
 struct Fut {
@@ -298,7 +518,8 @@ enum InbSrc {
 }
 
 struct World {
-    t: VerifTcpTransport,
+    kind: Tk,
+    t: AnyT,
     listen: SocketAddr,
     /// nodes A and B
     remote_listen: [SocketAddr; 2],
@@ -316,24 +537,13 @@ struct World {
 fn socket_of(a: &Multiaddr) -> SocketAddr {
     let mut it = a.iter();
     match (it.next(), it.next()) {
-        (Some(Protocol::Ip4(ip)), Some(Protocol::Tcp(p))) => SocketAddr::from((ip, p)),
+        (Some(Protocol::Ip4(ip)), Some(Protocol::Tcp(p))) | (Some(Protocol::Ip4(ip)), Some(Protocol::Udp(p))) =>
+            SocketAddr::from((ip, p)),
         _ => panic!("listen address"),
     }
 }
 
-fn config(cfg: u64) -> Config {
-    Config {
-        listen_addresses: vec!["/ip4/127.0.0.1/tcp/0".parse().unwrap()],
-        reuse_port: false,
-        // cfg >= 4: timeouts that fire within a case (an attempt is then ended by waiting)
-        connection_open_timeout: if cfg >= 4 { Duration::from_millis(SHORT_TIMEOUT_MS) } else { Duration::from_secs(60) },
-        substream_open_timeout: Duration::from_secs(60),
-        max_parallel_dials: parallel(cfg),
-        ..Default::default()
-    }
-}
-
-async fn remote_task(mut t: VerifTcpTransport, mut rx: mpsc::UnboundedReceiver<Multiaddr>) {
+async fn remote_task(mut t: AnyT, mut rx: mpsc::UnboundedReceiver<Multiaddr>) {
     loop {
         tokio::select! {
             cmd = rx.recv() => match cmd {
@@ -355,20 +565,21 @@ async fn remote_task(mut t: VerifTcpTransport, mut rx: mpsc::UnboundedReceiver<M
 }
 
 impl World {
-    async fn new(resolver: &VerifResolver, cfg: u64) -> World {
-        let (t, addrs) = VerifTcpTransport::new(Keypair::generate(), config(cfg), resolver).unwrap();
+    async fn new(resolver: &VerifResolver, kind: Tk, cfg: u64) -> World {
+        let (t, listen) = AnyT::new(kind, cfg, resolver);
         let mut tasks = Vec::new();
         let mut node = || {
-            let (r, raddrs) = VerifTcpTransport::new(Keypair::generate(), config(0), resolver).unwrap();
+            let (r, rlisten) = AnyT::new(kind, 0, resolver);
             let peer = r.local_peer_id();
             let (tx, rx) = mpsc::unbounded_channel();
             tasks.push(tokio::spawn(remote_task(r, rx)));
-            (socket_of(&raddrs[0]), peer, tx)
+            (rlisten, peer, tx)
         };
         let (a, b) = (node(), node());
         World {
+            kind,
             t,
-            listen: socket_of(&addrs[0]),
+            listen,
             remote_listen: [a.0, b.0],
             remote_peer: [a.1, b.1],
             remote_cmd: [a.2, b.2],
@@ -385,49 +596,94 @@ impl World {
         self.remote_peer.iter().position(|x| x == p).map(|i| i as u64).unwrap_or(9)
     }
 
-    /// one address; its attempt record is appended to `attempts`
+    /// the address of this transport's shape for a port
+    fn shaped(&self, port: u16, tls: bool) -> Multiaddr {
+        let ip = Multiaddr::empty().with(Protocol::Ip4(std::net::Ipv4Addr::new(127, 0, 0, 1)));
+        match self.kind {
+            Tk::Tcp => ip.with(Protocol::Tcp(port)),
+            Tk::Ws if tls => ip.with(Protocol::Tcp(port)).with(Protocol::Wss(std::borrow::Cow::Borrowed("/"))),
+            Tk::Ws => ip.with(Protocol::Tcp(port)).with(Protocol::Ws(std::borrow::Cow::Borrowed("/"))),
+            Tk::Quic => ip.with(Protocol::Udp(port)).with(Protocol::QuicV1),
+        }
+    }
+
+    /// one address; when the transport takes it as an attempt (it parses), the attempt record is
+    /// appended to `attempts` — the same rule as `expect_of` of coq/Tcp/Variants.v
     fn address(&mut self, a: Addr, attempts: &mut Vec<Attempt>) -> Multiaddr {
         let (kind, named) = a;
-        let tcp = |port: u16| {
-            Multiaddr::empty()
-                .with(Protocol::Ip4(std::net::Ipv4Addr::new(127, 0, 0, 1)))
-                .with(Protocol::Tcp(port))
-        };
+        let ip = Multiaddr::empty().with(Protocol::Ip4(std::net::Ipv4Addr::new(127, 0, 0, 1)));
         let name = |m: Multiaddr, w: &World| match named {
             0 => m,
             1 => m.with(Protocol::P2p(w.remote_peer[0].into())),
             2 => m.with(Protocol::P2p(w.remote_peer[1].into())),
             _ => m.with(Protocol::P2p(w.nobody.into())),
         };
+        let parses = !(self.kind.strict() && named == 0);
         match kind {
-            0 | 3 => {
-                let node = if kind == 0 { 0 } else { 1 };
-                let g = spawn_gate(self.remote_listen[node], &mut self.tasks);
+            0 | 3 | 5 if !(kind == 5 && self.kind != Tk::Ws) => {
+                let node = if kind == 3 { 1 } else { 0 };
+                // an address the transport refuses never connects: no gate needed
+                if !parses {
+                    return name(self.shaped(closed_port(), kind == 5), self);
+                }
+                let g = spawn_gate(self.kind, self.remote_listen[node], false, &mut self.tasks);
                 let port = g.port;
                 self.gates.push(g);
-                attempts.push(Attempt { gate: Some(self.gates.len() - 1), node: node as u64, named, over: false });
-                name(tcp(port), self)
+                attempts.push(Attempt { gate: Some(self.gates.len() - 1), node: node as u64, named, tls: kind == 5, over: false });
+                name(self.shaped(port, kind == 5), self)
             }
             1 => {
-                attempts.push(Attempt { gate: None, node: 0, named, over: false });
-                name(tcp(closed_port()), self)
+                if parses {
+                    attempts.push(Attempt { gate: None, node: 0, named, tls: false, over: false });
+                }
+                name(self.shaped(closed_port(), false), self)
             }
-            _ => {
-                attempts.push(Attempt { gate: None, node: 0, named, over: false });
-                Multiaddr::empty()
-                    .with(Protocol::Ip4(std::net::Ipv4Addr::new(127, 0, 0, 1)))
-                    .with(Protocol::Udp(4001))
-            }
+            4 => match self.kind {
+                // a WebSocket address handed to TCP; a TCP address handed to WebSocket / QUIC
+                Tk::Tcp => name(ip.with(Protocol::Tcp(closed_port())).with(Protocol::Ws(std::borrow::Cow::Borrowed("/"))), self),
+                _ => name(ip.with(Protocol::Tcp(closed_port())), self),
+            },
+            _ => match self.kind {
+                Tk::Quic => ip.with(Protocol::Tcp(4001)).with(Protocol::Sctp(1)),
+                _ => ip.with(Protocol::Udp(4001)),
+            },
         }
     }
 
-    /// poll_next until Pending
+    /// poll_next until Pending — and not woken meanwhile: `FuturesUnordered` gives up its turn with a
+    /// self-wake (after two futures that woke themselves, which the `buffer_unordered` inside every
+    /// raw future does whenever its attempts have all been polled) while futures that are ready are
+    /// still queued; the owner's event loop is then polled again at once, and so is the transport here
     async fn flush(&mut self) {
+        struct Flag {
+            woken: std::sync::atomic::AtomicBool,
+            inner: std::task::Waker,
+        }
+        impl std::task::Wake for Flag {
+            fn wake(self: std::sync::Arc<Self>) {
+                self.woken.store(true, std::sync::atomic::Ordering::SeqCst);
+                self.inner.wake_by_ref();
+            }
+        }
         tap(true);
+        let mut again = 0;
         loop {
             let t = &mut self.t;
-            let r = futures::future::poll_fn(|cx| Poll::Ready(t.poll_event(cx))).await;
+            let (r, woken) = futures::future::poll_fn(|cx| {
+                let flag = std::sync::Arc::new(Flag { woken: false.into(), inner: cx.waker().clone() });
+                let waker = std::task::Waker::from(flag.clone());
+                let r = t.poll_event(&mut std::task::Context::from_waker(&waker));
+                Poll::Ready((r, flag.woken.load(std::sync::atomic::Ordering::SeqCst)))
+            })
+            .await;
             match r {
+                Poll::Pending if woken && again < 64 => {
+                    again += 1;
+                    // a tokio resource that ran out of its cooperative budget also wakes itself
+                    tap(false);
+                    tokio::task::yield_now().await;
+                    tap(true);
+                }
                 Poll::Pending => break,
                 Poll::Ready(None) => {
                     push_out(14, 0);
@@ -451,19 +707,28 @@ impl World {
         self.wait_for(patient, if patient { 20_000 } else { 60 }, done).await
     }
 
-    /// `patient`: the completion is certain, its absence after `limit_ms` is recorded
+    /// `patient`: the completion is certain, its absence after `limit_ms` is recorded. The budget is
+    /// counted on a clock that a stall of the whole process cannot advance by more than 100 ms per
+    /// iteration (the sandbox VM gets paused: after a pause of more than the limit this loop would give
+    /// up before the runtime has had a turn to fire the implementation's own timers)
     async fn wait_for(&mut self, patient: bool, limit_ms: u64, done: impl Fn(&VerifTcpState, &[Out]) -> bool) {
-        let start = Instant::now();
         // once an answer went missing the run is failing anyway: do not spend 20 s on each further one
+        // (a QUIC attempt that gets no answer ends after 3 probe timeouts, about 3 s)
         let missed = MISSED.load(std::sync::atomic::Ordering::Relaxed);
-        let limit = Duration::from_millis(if patient && missed > 0 { limit_ms.min(2_000) } else { limit_ms });
+        let short = if self.kind == Tk::Quic { 8_000 } else { 2_000 };
+        let limit = Duration::from_millis(if patient && missed > 0 { limit_ms.min(short) } else { limit_ms });
+        let mut spent = Duration::ZERO;
+        let mut last = Instant::now();
         loop {
             self.flush().await;
             let seen = OUTS.with(|o| done(&self.t.state(), &o.borrow()));
             if seen {
                 break;
             }
-            if start.elapsed() > limit {
+            let now = Instant::now();
+            spent += (now - last).min(Duration::from_millis(100));
+            last = now;
+            if spent > limit {
                 if patient {
                     push_out(12, 0);
                     MISSED.fetch_add(1, std::sync::atomic::Ordering::Relaxed);
@@ -551,8 +816,8 @@ impl World {
                 if ok {
                     let (attempts, sock) = match self.inbound_src.remove(c) {
                         Some(InbSrc::Gate(g, node)) =>
-                            (vec![Attempt { gate: Some(g), node, named: 0, over: false }], None),
-                        Some(InbSrc::Sock(s)) => (vec![Attempt { gate: None, node: 0, named: 0, over: false }], Some(s)),
+                            (vec![Attempt { gate: Some(g), node, named: 0, tls: false, over: false }], None),
+                        Some(InbSrc::Sock(s)) => (vec![Attempt { gate: None, node: 0, named: 0, tls: false, over: false }], Some(s)),
                         None => (Vec::new(), None),
                     };
                     self.futs.push(Fut { kind: FKind::Inb, id: *c, attempts, sock, alive: Alive::Yes });
@@ -568,13 +833,10 @@ impl World {
             Ev::Poll => self.flush().await,
             Ev::Inbound(k) => {
                 self.flush().await;
-                let src = if *k != 1 {
-                    let node = if *k == 0 { 0 } else { 1 };
-                    let g = spawn_gate(self.listen, &mut self.tasks);
-                    let addr = Multiaddr::empty()
-                        .with(Protocol::Ip4(std::net::Ipv4Addr::new(127, 0, 0, 1)))
-                        .with(Protocol::Tcp(g.port))
-                        .with(Protocol::P2p(self.t.local_peer_id().into()));
+                let src = if *k != 1 || self.kind == Tk::Quic {
+                    let node = if *k == 2 { 1 } else { 0 };
+                    let g = spawn_gate(self.kind, self.listen, true, &mut self.tasks);
+                    let addr = self.shaped(g.port, false).with(Protocol::P2p(self.t.local_peer_id().into()));
                     self.gates.push(g);
                     let _ = self.remote_cmd[node].send(addr);
                     Some(InbSrc::Gate(self.gates.len() - 1, node as u64))
@@ -613,8 +875,12 @@ impl World {
                     drop(fut.sock.take());
                 }
                 if let Some(g) = att.gate {
-                    // with short timeouts a failing attempt is not closed: its timeout ends it
-                    if !(self.short && *r == 0) {
+                    // with short timeouts a failing attempt is not closed: its timeout ends it (the
+                    // only way a QUIC attempt can be made to fail); a /wss attempt fails by itself
+                    // once the TLS client talks to the plain listener
+                    if att.tls {
+                        self.release(g, true);
+                    } else if !((self.short || self.kind == Tk::Quic) && *r == 0) {
                         self.release(g, *r != 0);
                     }
                 }
@@ -691,7 +957,11 @@ impl World {
         outs
     }
 
-    fn shutdown(self) {
+}
+
+impl Drop for World {
+    /// also when the case ends in a panic of the implementation
+    fn drop(&mut self) {
         for t in &self.tasks {
             t.abort();
         }
@@ -721,14 +991,42 @@ fn pick_or(rng: &mut Rng, xs: &[u64], noisy: bool) -> Option<u64> {
     }
 }
 
-fn gen_addr(rng: &mut Rng, gate_only: bool) -> Addr {
-    let kind = if gate_only { rng.pick(&[0, 0, 3]) } else { rng.pick(&[0, 0, 0, 0, 3, 3, 1, 1, 2]) };
-    let named = match kind {
-        0 => rng.pick(&[1, 1, 1, 1, 1, 1, 1, 2, 2, 0, 3]),
+fn gen_addr(rng: &mut Rng, kind: Tk, gate_only: bool) -> Addr {
+    let k = if gate_only {
+        rng.pick(&[0, 0, 3])
+    } else {
+        match kind {
+            Tk::Tcp => rng.pick(&[0, 0, 0, 0, 3, 3, 1, 1, 2, 4]),
+            Tk::Ws => rng.pick(&[0, 0, 0, 0, 3, 3, 1, 1, 2, 4, 5]),
+            // nothing answers for a closed UDP port: such an attempt only ends by its timeout
+            Tk::Quic => rng.pick(&[0, 0, 0, 0, 3, 3, 2, 4]),
+        }
+    };
+    let named = match k {
+        0 | 5 => rng.pick(&[1, 1, 1, 1, 1, 1, 1, 2, 2, 0, 3]),
         3 => rng.pick(&[2, 2, 2, 2, 2, 1, 1, 1, 0, 3]),
         _ => rng.pick(&[1, 1, 2, 0]),
     };
-    (kind, named)
+    (k, named)
+}
+
+/// without a gate among the attempts, at most one attempt may end by itself (its end is then the
+/// end of the future; two would race)
+fn sanitize(kind: Tk, v: &mut Vec<Addr>) {
+    let parses = |a: &Addr| !(kind.strict() && a.1 == 0);
+    let gates = v.iter().filter(|a| matches!(a.0, 0 | 3 | 5) && !(a.0 == 5 && kind != Tk::Ws) && parses(a)).count();
+    if gates == 0 {
+        let mut seen = false;
+        v.retain(|a| {
+            if a.0 == 1 && parses(a) {
+                let keep = !seen;
+                seen = true;
+                keep
+            } else {
+                true
+            }
+        });
+    }
 }
 
 fn parallel(cfg: u64) -> usize {
@@ -739,24 +1037,35 @@ fn parallel(cfg: u64) -> usize {
 }
 
 /// the attempts of future f that can be ended now through their gate: `open` runs at most
-/// `max_parallel_dials` attempts at a time, in the order of the addresses
-fn gate_attempts(f: &Fut, cfg: u64) -> Vec<usize> {
+/// `max_parallel_dials` attempts at a time, in the order of the addresses (QUIC: all at once)
+fn gate_attempts(f: &Fut, kind: Tk, cfg: u64) -> Vec<usize> {
     f.attempts
         .iter()
         .enumerate()
         .filter(|(_, a)| !a.over)
-        .take(parallel(cfg))
+        .take(if kind == Tk::Quic { usize::MAX } else { parallel(cfg) })
         .filter(|(_, a)| a.gate.is_some() || f.sock.is_some())
         .map(|(i, _)| i)
         .collect()
 }
 
+/// how the generator ends a gate attempt: pass (the node behind the gate authenticates) or failure
+fn gen_answer(rng: &mut Rng, kind: Tk, a: &Attempt, pass_percent: u64) -> u64 {
+    if a.tls || a.gate.is_none() {
+        0
+    } else if kind == Tk::Quic || rng.chance(pass_percent) {
+        1 + a.node
+    } else {
+        0
+    }
+}
+
 /// Cases in which the timeouts fire (connection_open_timeout = 250 ms): one future at a time, ended
 /// by waiting — a held attempt of an open / a dial times out (`Ans f i 0`), or three held addresses
 /// tried one after the other run into the overall deadline of the open (`Expire f`).
-async fn run_timeouts(resolver: &VerifResolver, rng: &mut Rng) -> (Vec<u64>, Vec<u64>) {
+async fn run_timeouts(resolver: &VerifResolver, kind: Tk, rng: &mut Rng, case: &mut Vec<u64>) -> Vec<u64> {
     let cfg = 5; // short timeouts, max_parallel_dials = 1
-    let mut w = World::new(resolver, cfg).await;
+    let mut w = World::new(resolver, kind, cfg).await;
     let mut evs: Vec<Ev> = Vec::new();
     let mut id = 0u64;
     let mut f = 0u64;
@@ -764,32 +1073,42 @@ async fn run_timeouts(resolver: &VerifResolver, rng: &mut Rng) -> (Vec<u64>, Vec
         match rng.below(3) {
             0 => evs.extend([Ev::Draw, Ev::Dial(id, (0, 1)), Ev::Poll, Ev::Ans(f, 0, 0)]),
             1 => evs.extend([Ev::Draw, Ev::Open(id, vec![(0, 1)]), Ev::Poll, Ev::Ans(f, 0, 0)]),
+            // QUIC has no overall deadline: both held attempts run into their own timeout
+            _ if kind == Tk::Quic =>
+                evs.extend([Ev::Draw, Ev::Open(id, vec![(0, 1), (3, 2)]), Ev::Poll, Ev::Ans(f, 0, 0), Ev::Ans(f, 1, 0)]),
             _ => evs.extend([Ev::Draw, Ev::Open(id, vec![(0, 1), (3, 2), (0, 1)]), Ev::Poll, Ev::Expire(f)]),
         }
         id += 1;
         f += 1;
     }
     evs.push(Ev::Poll);
-    let mut case = vec![STREAM_TAG, cfg, evs.len() as u64];
+    *case = vec![kind.tag(), cfg, evs.len() as u64];
+    for ev in &evs {
+        ev.encode(case);
+    }
     let mut trace = vec![1u64];
     for ev in &evs {
-        ev.encode(&mut case);
         w.step(ev, &mut trace).await;
     }
-    w.shutdown();
-    (case, trace)
+    trace
 }
 
-async fn run_generated(resolver: &VerifResolver, rng: &mut Rng, thorough: bool) -> (Vec<u64>, Vec<u64>) {
+/// `case` is kept up to date step by step: when the implementation panics, it holds the events up to
+/// the one that panicked.
+async fn run_generated(resolver: &VerifResolver, kind: Tk, rng: &mut Rng, thorough: bool, case: &mut Vec<u64>) -> Vec<u64> {
     if rng.chance(3) {
-        return run_timeouts(resolver, rng).await;
+        return run_timeouts(resolver, kind, rng, case).await;
     }
     let cfg = rng.below(4);
-    let noisy = rng.chance(15);
+    // QUIC tells a dialed connection from an accepted one by its `pending_dials` entry (TCP and
+    // WebSocket carry the endpoint inside the negotiated connection), which an owner that uses one id
+    // twice confuses; the model's endpoint direction is that of TCP, and coincides with QUIC's for an
+    // owner that draws its ids (invariant c_conn_dial): QUIC cases keep to such owners
+    let noisy = rng.chance(15) && kind != Tk::Quic;
     let n = if thorough { rng.range(8, 70) } else { rng.range(5, 40) };
-    let mut w = World::new(resolver, cfg).await;
+    let mut w = World::new(resolver, kind, cfg).await;
     let mut k = Know::default();
-    let mut case = vec![STREAM_TAG, cfg, 0];
+    *case = vec![kind.tag(), cfg, 0];
     let mut trace = vec![1u64];
     let mut count = 0u64;
     // steps that must follow at once (an attempt that ends by itself, the manager's
@@ -802,12 +1121,11 @@ async fn run_generated(resolver: &VerifResolver, rng: &mut Rng, thorough: bool) 
         } else if count >= n || settle {
             // settle: end what is still pending, then stop
             settle = true;
-            match w.futs.iter().position(|f| f.alive == Alive::Yes && !gate_attempts(f, cfg).is_empty()) {
+            match w.futs.iter().position(|f| f.alive == Alive::Yes && !gate_attempts(f, kind, cfg).is_empty()) {
                 Some(f) => {
-                    let i = gate_attempts(&w.futs[f], cfg)[0];
+                    let i = gate_attempts(&w.futs[f], kind, cfg)[0];
                     let a = w.futs[f].attempts[i];
-                    let pass = a.gate.is_some() && rng.chance(60);
-                    Ev::Ans(f as u64, i as u64, if pass { 1 + a.node } else { 0 })
+                    Ev::Ans(f as u64, i as u64, gen_answer(rng, kind, &a, 60))
                 }
                 None => break,
             }
@@ -817,7 +1135,7 @@ async fn run_generated(resolver: &VerifResolver, rng: &mut Rng, thorough: bool) 
                 .futs
                 .iter()
                 .enumerate()
-                .filter(|(_, f)| f.alive != Alive::No && !gate_attempts(f, cfg).is_empty())
+                .filter(|(_, f)| f.alive != Alive::No && !gate_attempts(f, kind, cfg).is_empty())
                 .map(|(i, _)| i as u64)
                 .collect();
             match roll {
@@ -825,13 +1143,13 @@ async fn run_generated(resolver: &VerifResolver, rng: &mut Rng, thorough: bool) 
                     // open with a fresh id (sometimes a used / never drawn one)
                     let id = if noisy && rng.chance(30) { pick_or(rng, &k.used, true) } else { None };
                     // without a gate at most one address (its end is then the end of the future)
-                    let kinds: Vec<Addr> = match rng.below(12) {
+                    let mut kinds: Vec<Addr> = match rng.below(12) {
                         0 => Vec::new(),
-                        1 | 2 => vec![gen_addr(rng, false)],
+                        1 | 2 => vec![gen_addr(rng, kind, false)],
                         _ => {
-                            let mut v = vec![gen_addr(rng, true)];
+                            let mut v = vec![gen_addr(rng, kind, true)];
                             for _ in 0..rng.below(4) {
-                                v.push(gen_addr(rng, false));
+                                v.push(gen_addr(rng, kind, false));
                             }
                             // any order
                             let r = rng.below(v.len() as u64) as usize;
@@ -839,6 +1157,7 @@ async fn run_generated(resolver: &VerifResolver, rng: &mut Rng, thorough: bool) 
                             v
                         }
                     };
+                    sanitize(kind, &mut kinds);
                     match id {
                         Some(id) => Ev::Open(id, kinds),
                         None => {
@@ -848,7 +1167,7 @@ async fn run_generated(resolver: &VerifResolver, rng: &mut Rng, thorough: bool) 
                     }
                 }
                 18..=29 => {
-                    let a = gen_addr(rng, false);
+                    let a = gen_addr(rng, kind, false);
                     if noisy && rng.chance(30) {
                         match pick_or(rng, &k.used, true) {
                             Some(id) => Ev::Dial(id, a),
@@ -859,16 +1178,15 @@ async fn run_generated(resolver: &VerifResolver, rng: &mut Rng, thorough: bool) 
                         Ev::Draw
                     }
                 }
-                30..=38 => Ev::Inbound(rng.pick(&[0, 0, 0, 2, 2, 1])),
+                30..=38 => Ev::Inbound(if kind == Tk::Quic { rng.pick(&[0, 0, 2]) } else { rng.pick(&[0, 0, 0, 2, 2, 1]) }),
                 39..=66 => match pick_or(rng, &alive, false) {
                     Some(f) => {
-                        let ga = gate_attempts(&w.futs[f as usize], cfg);
+                        let ga = gate_attempts(&w.futs[f as usize], kind, cfg);
                         let i = ga[rng.below(ga.len() as u64) as usize];
                         let a = w.futs[f as usize].attempts[i];
-                        let pass = a.gate.is_some() && rng.chance(70);
-                        Ev::Ans(f, i as u64, if pass { 1 + a.node } else { 0 })
+                        Ev::Ans(f, i as u64, gen_answer(rng, kind, &a, 70))
                     }
-                    None => Ev::Inbound(rng.pick(&[0, 0, 2, 1])),
+                    None => Ev::Inbound(if kind == Tk::Quic { rng.pick(&[0, 2]) } else { rng.pick(&[0, 0, 2, 1]) }),
                 },
                 67..=73 => match pick_or(rng, &k.opening, noisy) {
                     Some(c) => Ev::Cancel(c),
@@ -914,8 +1232,9 @@ async fn run_generated(resolver: &VerifResolver, rng: &mut Rng, thorough: bool) 
             Ev::Dial(u64::MAX, a) => Ev::Dial(k.drawn.pop().unwrap_or(0), a),
             e => e,
         };
-        ev.encode(&mut case);
+        ev.encode(case);
         count += 1;
+        case[2] = count;
         let nf = w.futs.len();
         let outs = w.step(&ev, &mut trace).await;
         // observe
@@ -985,17 +1304,19 @@ async fn run_generated(resolver: &VerifResolver, rng: &mut Rng, thorough: bool) 
     if forced.is_empty() {
         // closing poll and dump
         let ev = Ev::Poll;
-        ev.encode(&mut case);
+        ev.encode(case);
         count += 1;
+        case[2] = count;
         w.step(&ev, &mut trace).await;
     }
-    case[2] = count;
-    w.shutdown();
-    (case, trace)
+    trace
 }
 
 async fn run_stored_async(resolver: &VerifResolver, c: &[u64]) -> Vec<u64> {
-    if c.len() < 3 || c[0] != STREAM_TAG {
+    let Some(kind) = c.first().copied().and_then(Tk::of_tag) else {
+        return vec![0];
+    };
+    if c.len() < 3 || (kind == Tk::Quic && !cfg!(feature = "quic")) {
         return vec![0];
     }
     let mut evs = Vec::new();
@@ -1009,12 +1330,11 @@ async fn run_stored_async(resolver: &VerifResolver, c: &[u64]) -> Vec<u64> {
     if i != c.len() {
         return vec![0];
     }
-    let mut w = World::new(resolver, c[1]).await;
+    let mut w = World::new(resolver, kind, c[1]).await;
     let mut trace = vec![1u64];
     for ev in &evs {
         w.step(ev, &mut trace).await;
     }
-    w.shutdown();
     trace
 }
 
@@ -1029,12 +1349,35 @@ impl Tcp {
         Tcp { resolver: VerifResolver::new().expect("resolver") }
     }
     pub fn is_tcp_case(c: &[u64]) -> bool {
-        c.first() == Some(&STREAM_TAG)
+        c.first().copied().and_then(Tk::of_tag).is_some()
     }
     pub fn run_stored(&self, rt: &Runtime, c: &[u64]) -> Vec<u64> {
         rt.block_on(run_stored_async(&self.resolver, c))
     }
-    pub fn run_generated(&self, rt: &Runtime, rng: &mut Rng, thorough: bool) -> (Vec<u64>, Vec<u64>) {
-        rt.block_on(run_generated(&self.resolver, rng, thorough))
+    /// a panic of the implementation ends the case: the events so far, and the panic marker as trace
+    pub fn run_generated(&self, rt: &Runtime, kind: Tk, rng: &mut Rng, thorough: bool) -> (Vec<u64>, Vec<u64>) {
+        let mut case = Vec::new();
+        let r = std::panic::catch_unwind(std::panic::AssertUnwindSafe(|| {
+            rt.block_on(run_generated(&self.resolver, kind, rng, thorough, &mut case))
+        }));
+        match r {
+            Ok(trace) => (case, trace),
+            Err(_) => (case, vec![PANIC_MARK]),
+        }
+    }
+}
+
+/// which transport stream, if any, case number i of a run belongs to
+pub fn stream_of(i: u64, thorough: bool, only: Option<Tk>) -> Option<Tk> {
+    if let Some(k) = only {
+        return Some(k);
+    }
+    let m = share(thorough);
+    if i % m == 9 {
+        Some(Tk::Tcp)
+    } else if i % m == m / 2 + 9 {
+        Some(Tk::Ws)
+    } else {
+        None
     }
 }
